@@ -433,6 +433,8 @@ class Campaign:
                 if la["ao"] != r["do"]["offset"]:
                     ctx.mismatch("_apply_modifications passes offset %s for the request at %s, the model (offset + total_insert_len - block_delta) %s"
                                  % (r["do"]["offset"], e["off"], la["ao"]), case)
+                if not la.get("minv", True) and not case.get("shared"):
+                    ctx.mismatch("premise of apply_keeps_cache_in_step does not hold on a recorded state: functions_by_block does not mirror functionBlocks", case)
                 if not la["ids_below"] or not la["new_blocks"]:
                     ctx.mismatch("premise of loop_is_listing does not hold on a recorded state: ids_below=%s new_blocks=%s"
                                  % (la["ids_below"], la["new_blocks"]), case)
